@@ -117,8 +117,17 @@ def gen_server(rng, consts, many_peers=False, long_times=False):
         elif r < 20:
             sc.add("at %d injectmsg %s %s t=%s e code=%d text=%s" % (
                 t, src.script(), naddr.script(), tid, rng.choice([201, 202, 203, 204, 0, 255]), "6f6f7073"))
-        elif r < 22:
+        elif r < 21:
             sc.add("at %d inject %s %s %s" % (t, src.script(), naddr.script(), rng.bytes(rng.range(1, 40)).hex()))
+        elif r < 22 and world:
+            # a query that merely CLAIMS the id of a node the table may know (named by a contact), from another address
+            wid, _ = world[rng.below(len(world))]
+            if rng.chance(1, 2):
+                sc.add("at %d injectmsg %s %s t=%s q=ping id=%040x" % (t, src.script(), naddr.script(), tid, wid))
+            else:
+                sc.add("at %d injectmsg %s %s t=%s q=find_node id=%040x target=%040x want=-" % (
+                    t, src.script(), naddr.script(), tid, wid, comp.rand_id(rng)))
+            sc.add("at %d contacts n" % (t + 1 * MS))
         else:
             sc.add("at %d contacts n" % t)
     sc.add("at %d state n" % (t + 1 * S))
@@ -198,7 +207,7 @@ def gen_lookup(rng, consts, hostile=False, faults=False, early=False, sizes=None
         other = addr_in_family(rng, v6, 9000)
         base = searches[0]["t"]
         for _ in range(rng.range(3, 12)):
-            kind = rng.choice(["dup", "old", "othersrc", "wrongmid", "wrongaid", "shorttid"])
+            kind = rng.choice(["dup", "old", "othersrc", "wrongmid", "wrongaid", "shorttid", "longtid"])
             sc.add("at %d forge %s %s %s" % (base + rng.below(6 * S), kind, naddr.script(), other.script()))
         for _ in range(rng.range(0, 4)):
             # a fabricated response carrying peers and a token, with a random transaction id
@@ -282,7 +291,13 @@ def gen_bootstrap(rng, consts):
     own = comp.rand_id(rng)
     naddr = addr_in_family(rng, v6, 1)
     sc.add("seed %d" % rng.below(1 << 30))
-    sc.add("latency %d %d" % (1 * MS, rng.choice([5 * MS, 40 * MS, 200 * MS])))
+    if rng.chance(1, 4):
+        # duplicated datagrams arriving back to back (same virtual instant): answers of bootstrap exchanges come twice
+        lat = rng.choice([1 * MS, 20 * MS])
+        sc.add("latency %d %d" % (lat, lat))
+        sc.add("dup %d" % rng.choice([300, 1000]))
+    else:
+        sc.add("latency %d %d" % (1 * MS, rng.choice([5 * MS, 40 * MS, 200 * MS])))
     kind = rng.choice(["none", "plain", "plain", "plain", "overlap", "routers_only", "many", "dead"])
     n = {"none": 0, "plain": rng.range(1, 6), "overlap": rng.range(1, 4), "routers_only": rng.range(1, 3),
          "many": rng.range(12, 40), "dead": rng.range(1, 4)}[kind]
@@ -423,11 +438,21 @@ def gen_keepfresh(rng, consts, minutes):
     end = minutes * MIN
     contacts = []
     n_silent = rng.below(k) if k > 1 else rng.choice([0, 0, 1])
+    # "mass silence": the only configured contact and 3..5 others stop answering at the same instant while good; from then
+    # on re-bootstrap attempts fail and only the 6 s refresh keeps the remaining (responsive) contacts fresh
+    mass = rng.chance(1, 3)
+    mass_t = rng.range(1 * MIN, max(2 * MIN, end - 40 * MIN))
+    if mass:
+        k = rng.choice([6, 7, 8])
+        n_silent = rng.range(4, k - 1)
     for i in range(k):
         a = addr_in_family(rng, v6, 100 + i)
         idv = comp.rand_id(rng) if rng.chance(3, 4) else own ^ (1 << rng.below(159))
         c = {"name": "r%d" % i, "addr": a, "id": idv, "silent_from": None, "named_until": None, "in_world": True}
-        if i >= k - n_silent:
+        if i >= k - n_silent and mass:
+            c["silent_from"] = mass_t
+            c["named_until"] = mass_t
+        elif i >= k - n_silent:
             c["silent_from"] = rng.choice([0, rng.below(30 * S), rng.range(30 * S, 14 * MIN), rng.range(14 * MIN, 17 * MIN),
                                            rng.range(17 * MIN, max(18 * MIN, end - 30 * MIN))])
             style = rng.choice(["unnamed", "named_until", "named_until"])
@@ -446,6 +471,8 @@ def gen_keepfresh(rng, consts, minutes):
     conf = [c["addr"] for c in contacts if not c["in_world"]]
     rest = [c["addr"] for c in contacts if c["in_world"]]
     conf += rest[:rng.range(1, max(1, len(rest)))]
+    if mass:
+        conf = [contacts[-1]["addr"]]          # a single configured contact, one of those that go silent
     sc.add_node("n", naddr, own, ro=rng.chance(1, 2), aport=None, nodes=conf)
     for c in contacts:
         if c["named_until"] is not None:
@@ -472,3 +499,42 @@ def gen_keepfresh(rng, consts, minutes):
             "contacts": [{"name": c["name"], "addr": c["addr"].script(), "id": "%040x" % c["id"], "silent_from": c["silent_from"],
                           "named_until": c["named_until"], "in_world": c["in_world"]} for c in contacts]}
     return sc, meta
+
+
+def gen_bigtable_server(rng, consts):
+    """C09 handler part: a serving node whose table holds 9..40 live contacts in several buckets; find_node and get_peers
+    probes for the same key back to back (the two replies must list the same nodes), all `want` variants."""
+    sc = simlib.Scenario()
+    v6 = rng.chance(1, 4)
+    own = comp.rand_id(rng)
+    naddr = addr_in_family(rng, v6, 1)
+    sc.add("seed %d" % rng.below(1 << 30))
+    sc.add("latency %d %d" % (1 * MS, 20 * MS))
+    n = rng.range(9, 40)
+    world = []
+    for i in range(n):
+        a = addr_in_family(rng, v6, 100 + i)
+        r = rng.below(4)
+        if r == 0:
+            idv = own ^ (1 << (159 - rng.below(12))) ^ rng.below(1 << 100)      # shares 0..11 leading bits with the node
+        else:
+            idv = comp.rand_id(rng)
+        sc.add_resp("r%d" % i, a, idv, "normal" if rng.chance(5, 6) else "silent")
+        world.append((idv, a))
+    sc.add("world " + " ".join("%040x@%s" % (i, a.script()) for i, a in world))
+    sc.add_node("n", naddr, own, ro=False, aport=None, nodes=[a for _, a in world[:3]])
+    src = addr_in_family(rng, v6, 5000)
+    sid = comp.rand_id(rng)
+    t = 20 * S
+    pairs = []
+    for j in range(rng.range(8, 20)):
+        t += rng.choice([1 * S, 5 * S, 30 * S])
+        r = rng.below(5)
+        key = own if r == 0 else (world[rng.below(n)][0] if r == 1 else (own ^ (1 << rng.below(160)) if r == 2 else comp.rand_id(rng)))
+        w = want_txt(rng)
+        sc.add("at %d injectmsg %s %s t=f1%04x q=find_node id=%040x target=%040x want=%s" % (t, src.script(), naddr.script(), j, sid, key, w))
+        sc.add("at %d injectmsg %s %s t=f2%04x q=get_peers id=%040x ih=%040x want=%s" % (t + 1, src.script(), naddr.script(), j, sid, key, w))
+        pairs.append(j)
+    sc.add("at %d contacts n" % (t + 1 * S))
+    sc.add("end %d" % (t + 3 * S))
+    return sc, {"own": own, "naddr": naddr.script(), "src": src.script(), "pairs": pairs, "n": n}
